@@ -143,6 +143,38 @@ def run(ctx):
                 viol.append(dict(v, what="server protocol log: %r" % srv.log))
             if len(samples) < 3:
                 samples.append({"announced": ann, "authmech": authmech, "selected": want, "login": login})
+    # the same Client connecting again (a retry after a refused password, a new login after logout): every connect selects its
+    # mechanism afresh from what THAT server announces, and sends the credentials of THAT call
+    for ann in (["PLAIN", "LOGIN"], ["PLAIN"], ["LOGIN", "OAUTHBEARER"], ["OAUTHBEARER", "PLAIN", "LOGIN"]):
+        for first_ok in (False, True):
+            s = msref.Session()
+            hist_reqs, hist_outs = ["c op=new"], ["ok"]
+            attempts = [("user", "wrong" if not first_ok else "pw1", "pw1"), ("user", "pw2", "pw2"), ("other", "pw3", "pw3")]
+            for login_, pw_, real_ in attempts:
+                srv = refserver.RefServer(r, sasl=" ".join(ann).encode(), users={login_.encode(): real_.encode()})
+                g = srv.greeting()
+                nw = len(s.wire.writes)
+                out = s.connect(b"", [], login_, pw_, "", False, None, server=srv)
+                hist_reqs.append(msref.req_connect(g, [], login_, pw_, "", False, None, later=list(s.wire.segments)))
+                hist_outs.append(out)
+                evals += 1
+                nontriv += 1
+                want = expected_mech(None, ann)
+                v = {"announced": ann, "authmech": None, "login": login_, "password": pw_, "history": "connect number %d on one Client" % (attempts.index((login_, pw_, real_)) + 1), "result": out[:100], "mech": want}
+                try:
+                    u, p, z = decode_exchange(s.wire.writes, want)
+                except Exception as e:  # noqa
+                    viol.append(dict(v, what="AUTHENTICATE exchange of a later connect on the same Client does not decode as %s: %s" % (want, e)))
+                    continue
+                if u != login_.encode() or p != pw_.encode():
+                    viol.append(dict(v, what="%s carries (%r, %r), this connect was given (%r, %r)" % (want, u, p, login_, pw_)))
+                ok_ = pw_ == real_
+                if ("res=b1" in out) != ok_:
+                    viol.append(dict(v, what="server %s the credentials but connect returned %s" % ("accepted" if ok_ else "refused", out.split(" ")[0])))
+                if ok_:
+                    s.op("logout")
+            lines += hist_reqs
+            expect += hist_outs
     # the announcement that counts is the one made on the channel the credentials travel on: after STARTTLS the list sent
     # with the greeting is void — a missing SASL line, an empty one, or only unknown / look-alike names mean "nothing announced"
     for pre in (b"PLAIN LOGIN", b"PLAIN", b"DIGEST-MD5 PLAIN LOGIN OAUTHBEARER"):
